@@ -182,6 +182,18 @@ def viterbi(ctx):
     ctx.ob("VITERBI", "insert_node|pushed-at-end_word", okp, fn_loc(crate, p),
            "the node is appended to the list of the boundary where the word ends (end_word)"
            if okp else "the node is not appended to ends[end_word]")
+    # ... on every path: each candidate word becomes a node of its own. Merging or dropping
+    # candidates at insertion time (same span, same left id) discards a node whose *onward*
+    # connection (its right id) may be the cheaper one - the minimum is over all candidates
+    pb = {b for b, t in pushes}
+    rets = fa.return_blocks()
+    from flow import must_pass
+    okall = bool(pb) and all(must_pass(fa, r, pb) for r in rets)
+    ctx.ob("VITERBI", "insert_node|pushed-on-every-path", okall, fn_loc(crate, p),
+           "every call of insert_node appends its node" if okall else
+           "insert_node can return without appending the node (it is dropped or overwrites another "
+           "candidate): a candidate with a dearer prefix but a cheaper onward connection is lost, "
+           "and the reported path need not be minimal")
 
     # ---- insert_eos -------------------------------------------------------------------------
     p = LAT + "insert_eos"
